@@ -655,3 +655,108 @@ Proof.
     rewrite Hs2. cbn [segs firstn app].
     repeat split; auto; try lia; try discriminate; cbn; lia.
 Qed.
+
+Lemma map_fst_conversation hex with_fd r1 r2 : map fst (conversation hex with_fd r1 r2) = client_lines hex with_fd.
+Proof. unfold conversation, client_lines. destruct with_fd; reflexivity. Qed.
+
+(* T-sent: the bytes written are whole lines of the expected conversation, in order *)
+Theorem conforming_sent hex with_fd evs res :
+  conforming hex with_fd evs res ->
+  exists n, sent evs = concat (firstn n (client_lines hex with_fd)) /\ n <> 1%nat
+            /\ (res = COk <-> sent evs = expected_bytes hex with_fd)
+            /\ exists rest, sent evs ++ rest = expected_bytes hex with_fd.
+Proof.
+  intros H. destruct (conforming_order _ _ _ _ H) as (n & r1 & r2 & Es & Hn1 & _ & _ & Hok & Hle).
+  exists n. rewrite sent_segments, Es, <- firstn_map, map_fst_conversation.
+  assert (Hlc : length (conversation hex with_fd r1 r2) = length (client_lines hex with_fd)).
+  { rewrite <- (map_fst_conversation hex with_fd r1 r2). now rewrite map_length. }
+  rewrite Hlc in *. split; [reflexivity|]. split; [exact Hn1|]. split.
+  - rewrite Hok. split.
+    + intros ->. now rewrite firstn_all, expected_bytes_lines.
+    + intros E. destruct (Nat.eq_dec n (length (client_lines hex with_fd))) as [|Hne]; [assumption|exfalso].
+      assert (Hlen : len (concat (firstn n (client_lines hex with_fd))) = len (expected_bytes hex with_fd)) by now rewrite E.
+      rewrite <- expected_bytes_lines in Hlen.
+      rewrite <- (firstn_skipn n (client_lines hex with_fd)) in Hlen at 2. rewrite concat_app, len_app in Hlen.
+      assert (Hsk : len (concat (skipn n (client_lines hex with_fd))) = 0) by lia.
+      apply len_0_nil in Hsk.
+      assert (Hlt : (n < length (client_lines hex with_fd))%nat) by lia.
+      clear - Hsk Hlt. unfold client_lines in *.
+      destruct with_fd; cbn [app length] in Hlt;
+        repeat (destruct n as [|n]; [cbn in Hsk; discriminate|]); lia.
+  - exists (concat (skipn n (client_lines hex with_fd))).
+    now rewrite <- concat_app, firstn_skipn, expected_bytes_lines.
+Qed.
+
+(* T-total *)
+Theorem conforming_total hex with_fd evs res : conforming hex with_fd evs res -> res <> CPanic /\ res <> CFuel.
+Proof. intros H. inversion H; subst; try (split; discriminate); destruct a; cbn; split; discriminate. Qed.
+
+(* T-class: AuthFailed / UnixFdNegotiationFailed are reported exactly for a complete UTF-8 reply line that
+   does not start with the expected word; Blocked only while the last reply has no line ending *)
+Theorem conforming_class hex with_fd evs res :
+  conforming hex with_fd evs res ->
+  match res with
+  | CAuthFailed => exists r1 line dropped, segments evs = [(NUL, []); (AUTH_LINE hex, r1)]
+                     /\ first_line r1 line dropped /\ utf8_valid line = true /\ starts_with OK_ line = false
+  | CFdFailed => with_fd = true /\ exists r1 r2 line dropped,
+                     segments evs = [(NUL, []); (AUTH_LINE hex, r1); (NEG_LINE, r2)] /\ accepted OK_ r1
+                     /\ first_line r2 line dropped /\ utf8_valid line = true /\ starts_with AGREE_UNIX_FD line = false
+  | CBlocked => exists before w r, segments evs = before ++ [(w, r)] /\ ~ has_crlf r
+  | COk | CErr => True
+  | CPanic | CFuel => False
+  end.
+Proof.
+  intros H. unfold segments. inversion H; subst; clear H; try exact I.
+  - destruct (reply_received _ _ _ H0) as (ps & _ & Hs & _ & _ & Hrej & Hbl).
+    cbn [segs app]. rewrite <- (app_nil_r evs0), Hs. cbn [segs app].
+    destruct a; cbn [refused]; try exact I; try congruence.
+    + destruct (Hrej eq_refl) as (line & dropped & Hfl & Hu & Hsw). exists (concat ps), line, dropped. auto.
+    + exists [(NUL, [])], (AUTH_LINE hex), (concat ps). split; [reflexivity|auto].
+  - destruct (reply_received _ _ _ H1) as (ps1 & _ & Hs1 & _ & Ha1 & _ & _).
+    destruct (reply_received _ _ _ H2) as (ps2 & _ & Hs2 & _ & _ & Hrej & Hbl).
+    cbn [segs app]. rewrite Hs1. cbn [segs app]. rewrite <- (app_nil_r evs2), Hs2. cbn [segs app].
+    destruct a; cbn [refused]; try exact I; try congruence.
+    + split; [reflexivity|]. destruct (Hrej eq_refl) as (line & dropped & Hfl & Hu & Hsw).
+      exists (concat ps1), (concat ps2), line, dropped. auto.
+    + exists [(NUL, []); (AUTH_LINE hex, concat ps1)], NEG_LINE, (concat ps2). split; [reflexivity|auto].
+Qed.
+
+(* T-reject: a complete reply line that is not acceptable (REJECTED, ERROR, garbage, not UTF-8) is never
+   followed by BEGIN, and the attempt does not succeed *)
+Lemma begin_not_in_prefix hex : ~ In BEGIN_LINE [NUL; AUTH_LINE hex; NEG_LINE].
+Proof. cbv. intuition discriminate. Qed.
+
+Theorem conforming_refusal hex with_fd evs res :
+  conforming hex with_fd evs res ->
+  forall i w r line dropped,
+    nth_error (segments evs) i = Some (w, r) -> first_line r line dropped ->
+    (i = 1%nat /\ (utf8_valid line && starts_with OK_ line) = false)
+    \/ (i = 2%nat /\ with_fd = true /\ (utf8_valid line && starts_with AGREE_UNIX_FD line) = false) ->
+    ~ In BEGIN_LINE (map fst (segments evs)) /\ res <> COk.
+Proof.
+  intros H i w r line dropped Hnth Hfl Hcase.
+  destruct (conforming_order _ _ _ _ H) as (n & r1 & r2 & Es & Hn1 & Hacc1 & Hacc2 & Hok & Hle).
+  rewrite Es in *. clear Es H.
+  assert (Hcontra : forall word, accepted word r -> (utf8_valid line && starts_with word line) = false -> False).
+  { intros word (l2 & d2 & Hfl2 & Hu2 & Hs2) Hb. destruct (first_line_unique _ _ _ _ _ Hfl Hfl2) as [-> _].
+    rewrite Hu2, Hs2 in Hb. discriminate. }
+  destruct Hcase as [[-> Hb]|(-> & -> & Hb)].
+  - assert (Hn : (n <= 2)%nat).
+    { destruct (le_lt_dec n 2) as [|Hgt]; [assumption|exfalso].
+      apply (Hcontra OK_); [|exact Hb]. specialize (Hacc1 Hgt).
+      unfold conversation in Hnth. destruct n as [|[|n]]; try lia. cbn in Hnth. inversion Hnth; subst. exact Hacc1. }
+    split.
+    + rewrite <- firstn_map, map_fst_conversation. intros Hin.
+      apply (begin_not_in_prefix hex). unfold client_lines in Hin.
+      destruct n as [|[|[|n]]]; try lia; cbn [firstn In] in Hin |- *; tauto.
+    + rewrite Hok. unfold conversation. destruct with_fd; cbn; lia.
+  - assert (Hn : (n <= 3)%nat).
+    { destruct (le_lt_dec n 3) as [|Hgt]; [assumption|exfalso].
+      apply (Hcontra AGREE_UNIX_FD); [|exact Hb]. specialize (Hacc2 eq_refl Hgt).
+      unfold conversation in Hnth. destruct n as [|[|[|n]]]; try lia. cbn in Hnth. inversion Hnth; subst. exact Hacc2. }
+    split.
+    + rewrite <- firstn_map, map_fst_conversation. intros Hin.
+      apply (begin_not_in_prefix hex). unfold client_lines in Hin.
+      destruct n as [|[|[|[|n]]]]; try lia; cbn [firstn In app] in Hin |- *; tauto.
+    + rewrite Hok. unfold conversation. cbn. lia.
+Qed.
